@@ -681,6 +681,14 @@ class Messenger(Connection):
                     # Wait for the whole fixed-size contact header
                     self._logger.debug('Partial contact header')
                     return
+                if self.__rx_buf[:4] != contact.MAGIC_HEAD:
+                    # Whatever the octets behind it look like (a version 3
+                    # header is of variable size) there is nothing to wait for
+                    self._logger.error('Contact header with bad magic: %s',
+                                       binascii.hexlify(self.__rx_buf[:4]))
+                    self.close()
+                    self.__rx_buf = b''
+                    return
 
             # Probe for full message (by reading back encoded data)
             try:
